@@ -27,6 +27,14 @@
 //! truly secure zones in answer and authority; nothing forged and no denial of existing secure data
 //! to a CD=0 client; RD=0 refused.
 //!
+//! Server over the validating recursor (`rsrv.rs`, rules `rsrv-*`, counters `rsrv/*`, witnesses
+//! `"mode": "rsrv"`): the wire response of `Catalog` -> hickory's own `RecursiveZoneHandler` (built from a
+//! `RecursiveConfig`: roots file, trust-anchor file, validating policy) -> `Recursor` over the simulated
+//! signed internet of part R, judged by the same server clauses plus `bogus-denial-served` /
+//! `bogus-zone-data-served` (SERVFAIL, never an unauthenticated negative answer, to CD=0 clients). The
+//! only place where the `RecursiveError` arms of `build_forwarded_response` run. `--only=rsrv` runs it
+//! alone; `C07_SDUMP=1` prints every request.
+//!
 //! Anchored-island mode (`isl.rs`, rules `isl-*`, counters `isl/*`, witnesses `"mode": "isl"`): the same
 //! validator entry point, upstream emulation, tamper layer, fault menu and oracle over worlds whose
 //! trust anchor is the keyset-signing key of a NON-root zone Z; the upstream serves Z and its children
@@ -1039,6 +1047,30 @@ fn main() {
     }
     rep.must("rec/hierarchies_with_nsec3_limits_configured", 20);
     rep.must("rec/nsec3_over_hard_limit_honest_resolves_rejected", 9);
+    // server over the validating recursor (rsrv.rs)
+    rep.must("rsrv/hierarchies", 80);
+    rep.must("rsrv/runs", 14_000);
+    rep.must("rsrv/honest_positive_ad1", 330);
+    rep.must("rsrv/honest_negative_ad1", 380);
+    for (k, n) in [("nxdomain", 150), ("nodata", 210), ("nsec", 200), ("nsec3", 160)] {
+        rep.must(&format!("rsrv/honest_negative_ad1/{k}"), n);
+    }
+    rep.must("rsrv/honest_no_ad_for_unaware_client", 400);
+    rep.must("rsrv/rd0_refused", 100);
+    rep.must("rsrv/flags/do0ad1cd0rd1", 2200);
+    rep.must("rsrv/tampered_runs_where_the_fault_hit", 13_000);
+    rep.must("rsrv/tampered_runs_where_the_fault_hit_the_denial", 1700);
+    rep.must("rsrv/tampered_servfail_to_cd0", 6000);
+    rep.must("rsrv/tampered_denial_servfail_to_cd0", 500);
+    rep.must("rsrv/cd0_cd1_pairs", 3700);
+    rep.must("rsrv/cd1_gets_what_cd0_is_refused", 1000);
+    rep.must("rsrv/tampered_cd1_served/positive", 1400);
+    for (k, n) in [("alter-bit", 1600), ("drop", 1600), ("replace-genuine", 1800), ("inject-forged", 1100), ("strip-rrsigs", 770), ("strip-denial", 270), ("flip-rcode", 890), ("empty-section", 900), ("replay-other", 670), ("forged-unsigned-soa", 180), ("fake-insecure-delegation", 1800), ("attacker-keyset", 130), ("attacker-ds", 90), ("attacker-chain", 100), ("ancestor-denial", 230), ("insecure-soa-denial", 100), ("cross-zone-signature", 55), ("fake-cut", 29)] {
+        rep.must(&format!("rsrv/tampered_runs/{k}"), n);
+    }
+    for (k, n) in [("alter-bit", 1000), ("drop", 1000), ("replace-genuine", 1200), ("strip-rrsigs", 90), ("strip-denial", 250), ("empty-section", 180), ("flip-rcode", 190), ("replay-other", 50)] {
+        rep.must(&format!("rsrv/fault/{k}/denial"), n);
+    }
     // DnssecClient point (D)
     rep.must("cli/hierarchies", 80);
     rep.must("cli/queries", 6000);
@@ -1102,7 +1134,7 @@ fn main() {
     let n_hier = if only.as_deref() == Some("isl") { 0 } else { n_hier };
     let isl_params = isl::IParams { n_queries: if thorough { 10 } else { 6 }, cap_single: if thorough { 120 } else { 30 }, n_hist: if thorough { 4 } else { 2 } };
     let cli_params = cli::CParams { n_queries: if thorough { 10 } else { 8 }, cap_single: if thorough { 40 } else { 24 }, n_hist: if thorough { 4 } else { 4 } };
-    let rsrv_params = rsrv::SParams { n_queries: if thorough { 8 } else { 5 }, cap_denial: if thorough { 40 } else { 10 }, cap_other: if thorough { 40 } else { 8 }, cd1_one_in: if thorough { 1 } else { 2 }, do0_one_in: if thorough { 2 } else { 4 } };
+    let rsrv_params = rsrv::SParams { n_queries: if thorough { 6 } else { 5 }, cap_denial: if thorough { 24 } else { 10 }, cap_other: if thorough { 24 } else { 8 }, cd1_one_in: if thorough { 1 } else { 2 }, do0_one_in: if thorough { 2 } else { 4 } };
     let rec_params = rec::RParams { n_queries: if thorough { 10 } else { 8 }, cap_single: if thorough { 60 } else { 32 }, n_hist: if thorough { 6 } else { 6 } };
 
     for hi in 0..n_hier {
